@@ -92,7 +92,57 @@ theorem dict_ext (d : Dict) (g : Str → Str) (hnd : (d.map (·.1)).Nodup)
     simpa [List.lookup, hb] using this
 
 
-def fieldOf (nv : Str × Str) : Field := ⟨nv.1, nv.2, [], [' ']⟩
+/-- an item as a field of the document grammar: the first line of the value and its continuation lines -/
+def fieldOf (nv : Str × Str) : Field := ⟨nv.1, (splitChar '\n' nv.2).headD [], (splitChar '\n' nv.2).tail, [' ']⟩
+
+theorem joinNl_eq_join (ls : List Str) : Props.C06.joinNl ls = join ['\n'] ls := by
+  induction ls with
+  | nil => rfl
+  | cons l ls ih =>
+    cases ls with
+    | nil => simp [Props.C06.joinNl, join]
+    | cons m ms => rw [join1_cons2, ← ih]; rfl
+
+theorem joinNl_lines (v : Str) : Props.C06.joinNl ((splitChar '\n' v).headD [] :: (splitChar '\n' v).tail) = v := by
+  cases h : splitChar '\n' v with
+  | nil => exact absurd h (splitChar_ne_nil '\n' v)
+  | cons f cs =>
+    have := join_splitChar '\n' v
+    rw [h] at this
+    simp only [List.headD_cons, List.tail_cons, joinNl_eq_join, this]
+
+theorem joinNl_append2 (a b : List Str) (ha : a ≠ []) (hb : b ≠ []) :
+    Props.C06.joinNl (a ++ b) = Props.C06.joinNl a ++ '\n' :: Props.C06.joinNl b := by
+  induction a with
+  | nil => exact absurd rfl ha
+  | cons x xs ih =>
+    cases xs with
+    | nil =>
+      cases b with
+      | nil => exact absurd rfl hb
+      | cons y ys => simp [Props.C06.joinNl]
+    | cons z zs =>
+      have := ih (by simp)
+      simp only [List.cons_append] at this ⊢
+      simp only [Props.C06.joinNl, this, List.append_assoc, List.cons_append]
+
+theorem joinNl_fieldLines (nv : Str × Str) :
+    Props.C06.joinNl (fieldLines (fieldOf nv)) = nv.1 ++ ':' :: ' ' :: nv.2 := by
+  unfold fieldLines fieldOf
+  simp only
+  cases h : splitChar '\n' nv.2 with
+  | nil => exact absurd h (splitChar_ne_nil '\n' nv.2)
+  | cons f cs =>
+    have hj := joinNl_lines nv.2
+    rw [h] at hj
+    simp only [List.headD_cons, List.tail_cons] at hj ⊢
+    cases cs with
+    | nil =>
+      simp only [Props.C06.joinNl] at hj ⊢
+      rw [← hj]; simp
+    | cons c cs' =>
+      simp only [Props.C06.joinNl] at hj ⊢
+      rw [← hj]; simp [List.append_assoc]
 
 theorem renderM_eq (ps : Props.C08.InputM) (hne : ps ≠ []) :
     Props.C08.renderM ps = Props.C06.joinNl ((ps.map fieldOf).flatMap fieldLines) ++ ['\n'] := by
@@ -100,45 +150,66 @@ theorem renderM_eq (ps : Props.C08.InputM) (hne : ps ≠ []) :
   | nil => exact absurd rfl hne
   | cons nv rest ih =>
     cases rest with
-    | nil => simp [Props.C08.renderM, fieldOf, fieldLines, Props.C06.joinNl, List.append_assoc]
+    | nil =>
+      simp only [Props.C08.renderM, List.flatMap_cons, List.flatMap_nil, List.map_cons, List.map_nil, List.append_nil,
+        joinNl_fieldLines]
     | cons m r =>
       have := ih (by simp)
+      have hA : fieldLines (fieldOf nv) ≠ [] := by simp [fieldLines]
+      have hB : ((m :: r).map fieldOf).flatMap fieldLines ≠ [] := by simp [fieldLines]
       simp only [Props.C08.renderM, List.flatMap_cons, List.map_cons] at this ⊢
-      rw [this]
-      simp [fieldOf, fieldLines, Props.C06.joinNl, List.append_assoc]
+      rw [joinNl_append2 _ _ hA (by simpa using hB), joinNl_fieldLines, this]
+      simp [List.append_assoc]
 
 structure ItemOK (nv : Str × Str) : Prop where
   nameNe : nv.1 ≠ []
   nameR : ∀ c ∈ nv.1, inRange c = true ∧ c ≠ ':'
-  valNe : nv.2 ≠ []
-  valHead : headP isSpace nv.2 = false
+  firstNe : (splitChar '\n' nv.2).headD [] ≠ []
+  firstHead : headP isSpace ((splitChar '\n' nv.2).headD []) = false
+  firstNoB : ∀ c ∈ (splitChar '\n' nv.2).headD [], isBoundary c = false
+  conts : ∀ l ∈ (splitChar '\n' nv.2).tail, headP (fun c => c = ' ' || c = '\t') l = true ∧ ∀ c ∈ l, isBoundary c = false
   valLast : lastP (fun c => !isSpace c) nv.2 = true
-  valNoB : ∀ c ∈ nv.2, isBoundary c = false
 
 theorem itemOK_of (nv : Str × Str) (h : Props.C08.nameOk nv.1 = true ∧ Props.C08.valueOk nv.2 = true) : ItemOK nv := by
-  simp only [Props.C08.nameOk, Props.C08.valueOk, Bool.and_eq_true, List.all_eq_true, Bool.not_eq_true',
-    List.isEmpty_eq_false_iff, Bool.or_eq_true, decide_eq_true_eq] at h
-  obtain ⟨⟨hh, ha⟩, ⟨⟨⟨v1, v2⟩, v3⟩, v4⟩⟩ := h
-  refine ⟨?_, ?_, v1, ?_, v3, v4⟩
-  · intro e; rw [e] at hh; simp [headP] at hh
-  · intro c hc
-    have : (isAsciiAlnum c || c == '-') = true := by
-      rcases ha c hc with h | h
-      · simp [h]
-      · simp [h]
-    have := alnum_range this
-    simp only [Bool.and_eq_true, bne_iff_ne, ne_eq] at this
-    exact ⟨by simp [inRange, this.1.1, this.1.2], this.2⟩
-  · cases hv : nv.2 with
-    | nil => exact absurd hv v1
-    | cons c cs => rw [hv] at v2; simpa [headP] using v2
+  obtain ⟨hn, hv⟩ := h
+  simp only [Props.C08.nameOk, Bool.and_eq_true, List.all_eq_true, Bool.or_eq_true, decide_eq_true_eq] at hn
+  obtain ⟨hh, ha⟩ := hn
+  unfold Props.C08.valueOk at hv
+  cases hs : splitChar '\n' nv.2 with
+  | nil => exact absurd hs (splitChar_ne_nil '\n' nv.2)
+  | cons f cs =>
+    rw [hs] at hv
+    simp only [Bool.and_eq_true, Bool.not_eq_true', List.isEmpty_eq_false_iff, List.all_eq_true, Props.C08.contOk] at hv
+    obtain ⟨⟨⟨⟨v1, v2⟩, v3⟩, v4⟩, v5⟩ := hv
+    refine ⟨?_, ?_, ?_, ?_, ?_, ?_, v5⟩
+    · intro e; rw [e] at hh; simp [headP] at hh
+    · intro c hc
+      have : (isAsciiAlnum c || c == '-') = true := by
+        rcases ha c hc with h | h
+        · simp [h]
+        · simp [h]
+      have := alnum_range this
+      simp only [Bool.and_eq_true, bne_iff_ne, ne_eq] at this
+      exact ⟨by simp [inRange, this.1.1, this.1.2], this.2⟩
+    · simpa [hs] using v1
+    · simp only [hs, List.headD_cons]
+      cases hf : f with
+      | nil => exact absurd hf v1
+      | cons c cs' => rw [hf] at v2; simpa [headP] using v2
+    · intro c hc
+      simp only [hs, List.headD_cons] at hc
+      simpa using v3 c hc
+    · intro l hl
+      simp only [hs, List.tail_cons] at hl
+      have := v4 l hl
+      exact ⟨this.1, fun c hc => by simpa using this.2 c hc⟩
 
 theorem hf_fieldOf (nv : Str × Str) (h : ItemOK nv) :
     HF (fieldOf nv) ∧ (∀ l ∈ fieldLines (fieldOf nv), NoT l ∧ l ≠ []) := by
   have hnl : isBoundary '\n' = true := by decide
   have hcr : isBoundary '\r' = true := by decide
-  have hvn : '\n' ∉ nv.2 := fun hm => by have := h.valNoB _ hm; rw [hnl] at this; cases this
-  have hvr : '\r' ∉ nv.2 := fun hm => by have := h.valNoB _ hm; rw [hcr] at this; cases this
+  have hfn : '\n' ∉ (splitChar '\n' nv.2).headD [] := fun hm => by have := h.firstNoB _ hm; rw [hnl] at this; cases this
+  have hfr : '\r' ∉ (splitChar '\n' nv.2).headD [] := fun hm => by have := h.firstNoB _ hm; rw [hcr] at this; cases this
   refine ⟨⟨h.nameNe, ?_, ?_, ?_, ?_, ?_, ?_⟩, ?_⟩
   · intro c hc
     have hr := inRange_facts (h.nameR c hc).1
@@ -146,48 +217,73 @@ theorem hf_fieldOf (nv : Str × Str) (h : ItemOK nv) :
   · intro c hc; simp [fieldOf] at hc; exact Or.inl hc
   · intro c hc
     simp only [fieldOf] at hc
-    cases hv : nv.2 with
+    cases hv : (splitChar '\n' nv.2).headD [] with
     | nil => rw [hv] at hc; cases hc
     | cons v vs =>
       rw [hv] at hc
       have hcv : c = v := by simpa using hc.symm
-      have := h.valHead
+      have := h.firstHead
       rw [hv] at this
       simp only [headP] at this
       rw [hcv]
       constructor <;> (intro e; subst e; revert this; decide)
   · intro c hc
     simp only [fieldOf] at hc
-    have : c ∈ nv.2 := List.mem_of_getLast? hc
-    exact ⟨fun e => hvn (e ▸ this), fun e => hvr (e ▸ this)⟩
-  · intro hv; exact absurd hv h.valNe
-  · intro c hc; simp [fieldOf] at hc
+    have : c ∈ (splitChar '\n' nv.2).headD [] := List.mem_of_getLast? hc
+    exact ⟨fun e => hfn (e ▸ this), fun e => hfr (e ▸ this)⟩
+  · intro hv; exact absurd hv h.firstNe
+  · intro c hc
+    simp only [fieldOf] at hc
+    obtain ⟨h1, h2⟩ := h.conts c hc
+    refine ⟨h1, ?_⟩
+    intro x hx
+    have hxc : x ∈ c := List.mem_of_getLast? hx
+    have := h2 x hxc
+    constructor <;> (intro e; subst e; revert this; decide)
   · intro l hl
-    simp only [fieldLines, fieldOf, List.mem_singleton] at hl
-    subst hl
-    refine ⟨⟨?_, ?_⟩, ?_⟩
-    · intro hm
-      simp only [List.mem_append, List.mem_cons, List.mem_singleton] at hm
-      rcases hm with (hm | hm | hm) | hm
-      · exact (inRange_facts (h.nameR _ hm).1).2.2.1 rfl
-      · revert hm; decide
-      · revert hm; decide
-      · exact hvn hm
-    · intro hm
-      simp only [List.mem_append, List.mem_cons, List.mem_singleton] at hm
-      rcases hm with (hm | hm | hm) | hm
-      · exact (inRange_facts (h.nameR _ hm).1).2.2.2.1 rfl
-      · revert hm; decide
-      · revert hm; decide
-      · exact hvr hm
-    · cases hn : nv.1 with
-      | nil => exact absurd hn h.nameNe
-      | cons c cs => simp
+    simp only [fieldLines, fieldOf, List.mem_cons] at hl
+    rcases hl with rfl | hl
+    · refine ⟨⟨?_, ?_⟩, ?_⟩
+      · intro hm
+        simp only [List.mem_append, List.mem_cons, List.mem_singleton] at hm
+        rcases hm with (hm | hm | hm) | hm
+        · exact (inRange_facts (h.nameR _ hm).1).2.2.1 rfl
+        · revert hm; decide
+        · revert hm; decide
+        · exact hfn hm
+      · intro hm
+        simp only [List.mem_append, List.mem_cons, List.mem_singleton] at hm
+        rcases hm with (hm | hm | hm) | hm
+        · exact (inRange_facts (h.nameR _ hm).1).2.2.2.1 rfl
+        · revert hm; decide
+        · revert hm; decide
+        · exact hfr hm
+      · cases hn : nv.1 with
+        | nil => exact absurd hn h.nameNe
+        | cons c cs => simp
+    · obtain ⟨h1, h2⟩ := h.conts l hl
+      refine ⟨⟨?_, ?_⟩, ?_⟩
+      · intro hm; have := h2 _ hm; rw [hnl] at this; cases this
+      · intro hm; have := h2 _ hm; rw [hcr] at this; cases this
+      · intro e; rw [e] at h1; simp [headP] at h1
+
+theorem valHead_of (nv : Str × Str) (h : ItemOK nv) : headP isSpace nv.2 = false := by
+  have hj := joinNl_lines nv.2
+  have hf := h.firstHead
+  cases hfirst : (splitChar '\n' nv.2).headD [] with
+  | nil => exact absurd hfirst h.firstNe
+  | cons c cs =>
+    rw [hfirst] at hj hf
+    rw [← hj]
+    cases (splitChar '\n' nv.2).tail with
+    | nil => simpa [Props.C06.joinNl, headP] using hf
+    | cons l ls => simpa [Props.C06.joinNl, headP] using hf
 
 open Props.C08 in
-/-- **C08, merge clause on the text** — a paragraph of single-line `Name: value` fields with any pattern of
-repeated names and repeated values parses to the lower-cased names in order of first occurrence, each
-with its distinct values in order of first appearance, newline-separated -/
+/-- **C08, merge clause on the text** — a paragraph of `Name: value` fields, the values with any number of
+continuation lines, with any pattern of repeated names and repeated values parses to the lower-cased names in
+order of first occurrence, each with its distinct values (whole values) in order of first appearance,
+newline-separated -/
 theorem soundM (ps : InputM) : holdsOnM ps (modelM ps) = true := by
   unfold holdsOnM
   cases hw : wfM ps with
@@ -216,19 +312,21 @@ theorem soundM (ps : InputM) : holdsOnM ps (modelM ps) = true := by
       conv => rhs; rw [← List.map_id ps]
       apply List.map_congr_left
       intro nv _
-      simp [fieldOf, Props.C06.joinNl]
+      simp only [Function.comp, fieldOf, joinNl_lines, id]
     -- keys and values
     have hkey : ∀ nv ∈ ps, Props.C08.keyOf nv = lowerAscii nv.1 :=
       fun nv hnv => strip_lower_name nv.1 (fun c hc => ((hok nv hnv).nameR c hc).1)
     have hval : ∀ nv ∈ ps, Props.C08.valOf nv = nv.2 := by
       intro nv hnv
       have h := hok nv hnv
-      have := strip_core [] nv.2 [] (by simp) (by simp) h.valHead h.valLast
+      have := strip_core [] nv.2 [] (by simp) (by simp) (valHead_of nv h) h.valLast
       simpa [Props.C08.valOf] using this
-    have hone : ∀ nv ∈ ps, OneLine (Props.C08.valOf nv) := by
+    have hvne : ∀ nv ∈ ps, nv.2.isEmpty = false := by
       intro nv hnv
-      rw [hval nv hnv]
-      exact ⟨(hok nv hnv).valNe, (hok nv hnv).valNoB⟩
+      have := lastP_true_ne_nil (hok nv hnv).valLast
+      cases hv : nv.2 with
+      | nil => exact absurd hv this
+      | cons _ _ => rfl
     have hkeys := mergeItems_keys ps
     have hkeymap : (ps.map fun nv => strip (lowerAscii nv.1)) = ps.map fun nv => lowerAscii nv.1 :=
       List.map_congr_left (fun nv hnv => hkey nv hnv)
@@ -243,14 +341,20 @@ theorem soundM (ps : InputM) : holdsOnM ps (modelM ps) = true := by
         intro nv hnv
         rw [hkey nv hnv]
       rw [hfil]
-      apply List.map_congr_left
-      intro nv hnv
-      exact hval nv (List.mem_filter.mp hnv).1
+      have hmap : (ps.filter fun nv => lowerAscii nv.1 = k).map valOf = (ps.filter fun nv => lowerAscii nv.1 = k).map (·.2) := by
+        apply List.map_congr_left
+        intro nv hnv
+        exact hval nv (List.mem_filter.mp hnv).1
+      rw [hmap, List.filter_eq_self]
+      intro v hv
+      simp only [List.mem_map, List.mem_filter] at hv
+      obtain ⟨nv, ⟨hnv, _⟩, rfl⟩ := hv
+      simp [hvne nv hnv]
     have hext := dict_ext (mergeItems ps)
       (fun k => Model.Email.joinNl (distinct ((ps.filter fun nv => lowerAscii nv.1 = k).map (·.2)))) hnd (by
         intro k hk
-        rw [mergeItems_lookup ps hone k, hvf k]
-        have hne' : (ps.filter fun nv => lowerAscii nv.1 = k).map (·.2) ≠ [] := by
+        rw [mergeItems_lookup ps k, hvf k]
+        have hm : mentioned k ps = true := by
           rw [hkeys, firstOcc_eq_foldl] at hk
           -- a key of the merged mapping is the key of some item
           have hmem : ∀ (ns acc : List Str), ∀ x ∈ ns.foldl (fun acc n => if acc.contains n then acc else acc ++ [n]) acc,
@@ -273,11 +377,9 @@ theorem soundM (ps : InputM) : holdsOnM ps (modelM ps) = true := by
           · cases h
           · simp only [List.mem_map] at h
             obtain ⟨nv, hnv, hk'⟩ := h
-            intro e
-            have : nv ∈ ps.filter fun nv => lowerAscii nv.1 = k := by simp [hnv, hk']
-            have hm : nv.2 ∈ (ps.filter fun nv => lowerAscii nv.1 = k).map (·.2) := List.mem_map.mpr ⟨nv, this, rfl⟩
-            rw [e] at hm; cases hm
-        rw [if_neg hne'])
+            simp only [mentioned, List.any_eq_true, decide_eq_true_eq]
+            exact ⟨nv, hnv, by rw [hkey nv hnv]; exact hk'⟩
+        rw [if_pos hm])
     simp only [modelM, hdata]
     rw [hext, hkeys]
     have hA : ps.foldl (fun acc nv => if acc.contains (lowerAscii nv.1) then acc else acc ++ [lowerAscii nv.1]) [] =
